@@ -221,6 +221,8 @@ def plan(tier, seed):
         ("cumulative3", b8),
         ("alldiff_wide", (seed % 8, 8) if q else None),
         ("cumulative5_unit", None),
+        ("cumulative_pair", None),
+        ("global_pair", None),
         ("cumulative2_dur013", None),
         ("cumulative2_dem02", None),
         ("cumulative3_dur013", b8),
